@@ -102,10 +102,16 @@ def build_problem(spec):
     if spec.get("t_ref") is not None and spec["n_off"] == 0:  # explicit reference epoch (single source only: the merge re-derives it)
         from astropy.time import Time
 
-        kw["t_ref"] = Time(float(spec["t_ref"]), format="mjd", scale="tcb")
-    # the uncertainties may be handed over in another velocity unit than the velocities (spec["err_unit"]): same physics
+        # the same instant may be given in another time scale (spec["t_ref_scale"]): the number below is the TCB value
+        tr = Time(float(spec["t_ref"]), format="mjd", scale="tcb")
+        kw["t_ref"] = getattr(tr, spec["t_ref_scale"]) if spec.get("t_ref_scale") else tr
+    # the uncertainties may be handed over in another velocity unit than the velocities (spec["err_unit"]), and a later survey in
+    # another unit than the first (survey["unit"]): same physics; numbers in the spec are always in spec["data_unit"]
     eu = u.Unit(spec.get("err_unit") or spec["data_unit"])
-    srcs = [RVData(np.array(s["t"]), np.array(s["rv"]) * du, (np.array(s["err"]) * du).to(eu), **kw) for s in spec["surveys"]]
+    srcs = []
+    for k, s in enumerate(spec["surveys"]):
+        su = u.Unit(s.get("unit") or spec["data_unit"])
+        srcs.append(RVData(np.array(s["t"]), (np.array(s["rv"]) * du).to(su), (np.array(s["err"]) * du).to(eu if s.get("unit") is None else su), **kw))
     data = srcs[0] if spec["n_off"] == 0 else srcs
     with warnings.catch_warnings():
         warnings.simplefilter("ignore")
@@ -202,11 +208,27 @@ def run_impl(spec):
     with warnings.catch_warnings():
         warnings.simplefilter("ignore")
         ll = float(joker.marginal_ln_likelihood(data, smp, in_memory=True)[0])
+        # the same row at the end of a batch whose earlier rows have other jitters (positive, then zero) and a very short period
+        # (K-variance cap active for the default prior): the value must not depend on what was evaluated before it
+        from thejoker.samples import JokerSamples as _JS
+        import astropy.units as _u
+        th = spec["theta"]
+        du_ = _u.Unit(spec["data_unit"])
+        sc_ = 1.0 if spec["data_unit"] == "km/s" else 1000.0
+        batch = _JS(poly_trend=spec["n_poly"], n_offsets=spec["n_off"])
+        batch["P"] = np.array([th["P"] * 1.5 + 0.25, 0.0625, th["P"]]) * _u.day
+        batch["e"] = np.array([0.125, 0.96875, th["e"]]) * _u.one
+        batch["omega"] = np.array([1.0, 2.5, th["omega"]]) * _u.rad
+        batch["M0"] = np.array([0.5, 4.0, th["M0"]]) * _u.rad
+        batch["s"] = np.array([2.5 * sc_, 0.0, th["s"]]) * du_
+        ll_in_batch = float(joker.marginal_ln_likelihood(data, batch, in_memory=True)[2])
+        batch2 = batch[[1, 0, 2]]
+        ll_in_batch2 = float(joker.marginal_ln_likelihood(data, batch2, in_memory=True)[2])
         helper = joker._make_joker_helper(data)
         all_data, ids, trend_M = validate_prepare_data(data, prior.poly_trend, prior.n_offsets)
         row, _ = smp.pack(units=helper.internal_units, names=helper.packed_order)
         ll_test = float(helper.test_likelihood_worker(np.ascontiguousarray(row[0], dtype=float)))
-    out = dict(ll=ll, ll_test=ll_test, a=np.array(helper.a), Ainv=np.array(helper.Ainv), A=np.array(helper.A), b=np.array(helper.b), B=np.array(helper.B),
+    out = dict(ll=ll, ll_in_batch=(ll_in_batch, ll_in_batch2), ll_test=ll_test, a=np.array(helper.a), Ainv=np.array(helper.Ainv), A=np.array(helper.A), b=np.array(helper.b), B=np.array(helper.B),
                Binv=np.array(helper.Binv), row=np.asarray(row[0], float), all_data=all_data, trend_M=np.asarray(trend_M, float), prior=prior, helper=helper,
                data=data, smp=smp, joker=joker)
     du = all_data.rv.unit
